@@ -23,6 +23,7 @@ import (
 	"strconv"
 	"strings"
 	"sync"
+	"sync/atomic"
 	"time"
 
 	"filippo.io/age"
@@ -32,7 +33,8 @@ import (
 
 func init() {
 	register("C16", "real plugin.Recipient.WrapWithLabels / plugin.Identity.Unwrap driven by a scripted plugin process: "+
-		"every conversation of up to 3 plugin messages (thorough: 4 over the core alphabet, 3 over the extended one, sampled up to 6) "+
+		"every conversation of up to 3 plugin messages over the core alphabet and 2 over the extended one (thorough: 4 core, 3 extended, "+
+		"5 over one representative per branch, sampled up to 6) "+
 		"over {recipient-stanza and file-key with index 0/1/-0/+0/00/0x0 and too few/many arguments and empty body, labels with 0..2 "+
 		"arguments, error, msg, request-secret, request-public, confirm with 0..3 arguments and bad base64, unknown command, done, "+
 		"malformed framing, end of stream}, both state machines, UI callbacks absent/answering/failing, synchronous and burst delivery; "+
@@ -238,11 +240,16 @@ type c16Env struct {
 	dir    string
 	slots  chan int
 	wg     sync.WaitGroup
+	stalls int32    // conversations that hung; after c16MaxStalls the remaining cases are skipped
 	dump   *os.File // debugging aid: VERIF_C16_DUMP=<file> lists every case with the raw error text
 	dumpMu sync.Mutex
 }
 
 const c16Slots = 32
+
+// A client that stops answering makes every affected conversation last until
+// a watchdog fires; a handful of those is enough evidence, the rest is skipped.
+const c16MaxStalls = 12
 
 func c16Name(slot int) string { return fmt.Sprintf("verif%02d", slot) }
 
@@ -674,7 +681,18 @@ func c16Oracle(cv *c16Conv, obs *c16Obs) string {
 		}
 		return ""
 	}
-	checkReplies := func() string {
+	var checkReplies func() string
+	// fatal: the clause `what` requires a hard error and no acknowledgement of the offending message
+	fatal := func(what string) string {
+		if e := hardErr(what); e != "" {
+			return e
+		}
+		if e := checkReplies(); e != "" {
+			return what + ": " + e
+		}
+		return ""
+	}
+	checkReplies = func() string {
 		if len(obs.replies) != len(wantReplies) {
 			return fmt.Sprintf("client wrote %d replies, the protocol prescribes %d: got %s want %s", len(obs.replies), len(wantReplies), showStzs(obs.replies), showStzs(wantReplies))
 		}
@@ -751,17 +769,17 @@ func c16Oracle(cv *c16Conv, obs *c16Obs) string {
 		case !cv.ident && s.Type == "recipient-stanza":
 			own = "recipient-stanza"
 			if len(s.Args) < 2 {
-				return firstNonEmpty(checkReplies(), hardErr("recipient-stanza with fewer than 2 arguments"))
+				return fatal("recipient-stanza with fewer than 2 arguments")
 			}
 			if n, err := strconv.Atoi(s.Args[0]); err != nil || n != 0 {
-				return firstNonEmpty(checkReplies(), hardErr("recipient-stanza with index "+s.Args[0]+" (only file index 0 is accepted)"))
+				return fatal("recipient-stanza with index "+s.Args[0]+" (only file index 0 is accepted)")
 			}
 			accepted = append(accepted, stz{Type: s.Args[1], Args: s.Args[2:], Body: s.Body})
 			wantReplies = append(wantReplies, okS)
 		case !cv.ident && s.Type == "labels":
 			own = "labels"
 			if seenLabels {
-				return firstNonEmpty(checkReplies(), hardErr("repeated labels message"))
+				return fatal("repeated labels message")
 			}
 			seenLabels = true
 			labels = s.Args
@@ -769,13 +787,13 @@ func c16Oracle(cv *c16Conv, obs *c16Obs) string {
 		case cv.ident && s.Type == "file-key":
 			own = "file-key"
 			if len(s.Args) != 1 {
-				return firstNonEmpty(checkReplies(), hardErr("file-key with "+strconv.Itoa(len(s.Args))+" arguments"))
+				return fatal("file-key with "+strconv.Itoa(len(s.Args))+" arguments")
 			}
 			if n, err := strconv.Atoi(s.Args[0]); err != nil || n != 0 {
-				return firstNonEmpty(checkReplies(), hardErr("file-key with index "+s.Args[0]+" (only file index 0 is accepted)"))
+				return fatal("file-key with index "+s.Args[0]+" (only file index 0 is accepted)")
 			}
 			if seenFK {
-				return firstNonEmpty(checkReplies(), hardErr("repeated file-key message"))
+				return fatal("repeated file-key message")
 			}
 			seenFK = true
 			fileKey = s.Body
@@ -814,7 +832,7 @@ func c16Oracle(cv *c16Conv, obs *c16Obs) string {
 			}
 		case "confirm":
 			if len(s.Args) != 1 && len(s.Args) != 2 {
-				return firstNonEmpty(checkReplies(), hardErr("confirm with "+strconv.Itoa(len(s.Args))+" arguments"))
+				return fatal("confirm with "+strconv.Itoa(len(s.Args))+" arguments")
 			}
 			bad := false
 			for _, a := range s.Args {
@@ -823,7 +841,7 @@ func c16Oracle(cv *c16Conv, obs *c16Obs) string {
 				}
 			}
 			if bad && cv.ui[2] != 'a' {
-				return firstNonEmpty(checkReplies(), hardErr("confirm with an argument that is not canonical base64"))
+				return fatal("confirm with an argument that is not canonical base64")
 			}
 			if cv.ui[2] == 'a' {
 				// without a Confirm callback the client answers fail (the arguments are not looked at)
@@ -849,14 +867,7 @@ func c16Oracle(cv *c16Conv, obs *c16Obs) string {
 		}
 	}
 	// the conversation ended without done / error / a fatal message
-	return firstNonEmpty(checkReplies(), hardErr("the plugin stopped before done"))
-}
-
-func firstNonEmpty(a, b string) string {
-	if a != "" {
-		return a
-	}
-	return b
+	return fatal("the plugin stopped before done")
 }
 
 // ---------- cases ----------
@@ -865,10 +876,16 @@ func (env *c16Env) do(cx *ctx, kind string, cv *c16Conv) {
 	env.wg.Add(1)
 	cx.ru.Do(func() *h.Case {
 		defer env.wg.Done()
+		if atomic.LoadInt32(&env.stalls) >= c16MaxStalls {
+			return nil
+		}
 		slot := <-env.slots
 		obs := env.run(slot, cv)
 		if !obs.hung {
 			env.slots <- slot // a hung call keeps its plugin process: retire the slot
+		}
+		if obs.hung || strings.Contains(obs.meta, "stopped=deadline") {
+			atomic.AddInt32(&env.stalls, 1)
 		}
 		var names []string
 		for _, it := range cv.items {
@@ -990,9 +1007,24 @@ func runC16(cx *ctx) {
 		c16Inputs(rr, cv)
 		return cv
 	}
-	// 1. every UI combination, both delivery modes, short conversations over the extended alphabet
-	for n := 0; n <= cx.n(1, 2); n++ {
-		c16Enum(c16Ext, n, func(items []c16Item) {
+	pickItems := func(al []c16Item, names ...string) []c16Item {
+		var out []c16Item
+		for _, n := range names {
+			for _, it := range al {
+				if it.name == n {
+					out = append(out, it)
+				}
+			}
+		}
+		return out
+	}
+	// one representative per branch of each machine (the other machine's command is the unknown one)
+	miniWrap := pickItems(c16Core, "rs0", "rs1", "labels0", "error", "msg", "confirm1", "confirm0", "fk0", "done", "junk-line")
+	miniUnwrap := pickItems(c16Core, "fk0", "fk0-empty", "fk1", "error", "msg", "confirm1", "confirm0", "rs0", "done", "junk-line")
+
+	// 1. every UI combination, short conversations
+	allUI := func(al []c16Item, n int) {
+		c16Enum(al, n, func(items []c16Item) {
 			for _, ident := range []bool{false, true} {
 				for _, ui := range c16UIs {
 					env.do(cx, "allui", mk(r.Fork(), ident, ui, r.Bool(), items))
@@ -1000,24 +1032,37 @@ func runC16(cx *ctx) {
 			}
 		})
 	}
+	allUI(c16Ext, 0)
+	allUI(c16Ext, 1)
+	if cx.quick {
+		allUI(c16Core, 2)
+	} else {
+		allUI(c16Ext, 2)
+	}
 	// 2. exhaustive conversations, UI combination and delivery mode drawn per case
-	exh := func(al []c16Item, n int, kind string) {
+	exh := func(al []c16Item, n int, kind string, machines ...bool) {
+		if len(machines) == 0 {
+			machines = []bool{false, true}
+		}
 		c16Enum(al, n, func(items []c16Item) {
-			for _, ident := range []bool{false, true} {
+			for _, ident := range machines {
 				env.do(cx, kind, mk(r.Fork(), ident, h.Pick(r, c16UIs), r.Bool(), items))
 			}
 		})
 	}
-	for n := 2; n <= 3; n++ {
-		exh(c16Core, n, "core")
-	}
-	if !cx.quick {
+	exh(c16Core, 2, "core")
+	exh(c16Core, 3, "core")
+	if cx.quick {
+		exh(c16Ext, 2, "ext")
+	} else {
 		exh(c16Ext, 3, "ext")
 		exh(c16Core, 4, "core")
+		exh(miniWrap, 5, "mini", false)
+		exh(miniUnwrap, 5, "mini", true)
 	}
 	// 3. sampled longer conversations: mostly continuing messages so that late states are reached
-	budget := time.Duration(cx.n(0, 13)) * time.Minute
-	nSample := cx.n(1500, 60000)
+	budget := time.Duration(cx.n(0, 12)) * time.Minute
+	nSample := cx.n(5000, 400000)
 	for i := 0; i < nSample; i++ {
 		if !cx.quick && time.Since(start) > budget {
 			break
